@@ -20,11 +20,13 @@ Record seg := mkseg {
   sg_seen0    : list lrow;            (* ... as of the start of the transaction                   *)
   sg_flags    : list (ent * list bool);  (* per entity: OR of the per-flush change flags (tracker) *)
   sg_blind    : list ent;             (* same-value assignment to an unloaded attribute (finding) *)
+  sg_kinds_b  : list (ent * Z);       (* sg_kinds incl. the blind-set updates                      *)
+  sg_flags_b  : list (ent * list bool);
   sg_switched : list ent }.           (* went through a row switch at some point (finding)        *)
 
 Definition snap0 : snap := mksnap [] [] [] [] [] [] 0.
 Definition new_seg (sn : snap) (seen : list lrow) (switched : list ent) : seg :=
-  mkseg sn [] [] false false [] [] seen seen [] [] switched.
+  mkseg sn [] [] false false [] [] seen seen [] [] [] [] switched.
 
 (* the property's notion of "a versioned attribute or relationship changed": exclusion as configured *)
 Definition spec_rel_versioned (cc : clscfg) (r : relcfg) : bool :=
@@ -48,6 +50,10 @@ Definition really_changed (g : cfg) (prev : snap) (e : ent_ev) : bool :=
     | None => true
     end
   else true.
+
+Definition is_blind (g : cfg) (prev : snap) (e : ent_ev) : bool :=
+  negb (really_changed g prev e) &&
+  any2 (fun v b => v && b) (ver_flags (cls_of g (e_cls e))) (e_blind e).
 
 Fixpoint put_flags (x : ent) (fl : list bool) (l : list (ent * list bool)) : list (ent * list bool) :=
   match l with
@@ -73,8 +79,14 @@ Definition seg_flush (g : cfg) (sg : seg) (prev : snap) (objs : list obj_st) (en
            put_flags (eid e)
              (map (fun chg => chg || e_indel e || e_isnew e)
                   (proj (dat_flags (cls_of g (e_cls e))) (e_colchg e))) acc) changed (sg_flags sg))
-        (sg_blind sg ++ map eid (filter (fun e => negb (really_changed g prev e) &&
-             any2 (fun v b => v && b) (ver_flags (cls_of g (e_cls e))) (e_blind e)) vents))
+        (sg_blind sg ++ map eid (filter (is_blind g prev) vents))
+        (sg_kinds_b sg ++ map (fun e => (eid e, e_kind e))
+                              (filter (fun e => really_changed g prev e || is_blind g prev e) vents))
+        (fold_left (fun acc e =>
+           put_flags (eid e)
+             (map (fun chg => chg || e_indel e || e_isnew e)
+                  (proj (dat_flags (cls_of g (e_cls e))) (e_colchg e))) acc)
+           (filter (fun e => really_changed g prev e || is_blind g prev e) vents) (sg_flags_b sg))
         (sg_switched sg ++ map eid (filter (fun e => (e_kind e =? OP_UPD) && e_isnew e) vents)).
 
 (* walk the recorded run; chk is evaluated at every commit, rb at every rollback *)
@@ -90,7 +102,7 @@ Fixpoint walk (g : cfg) (chk rb : seg -> snap -> bool) (sg : seg) (prev : snap)
       | ManualTx =>
           walk g chk rb (mkseg (sg_before sg) (sg_allowed sg) (sg_kinds sg) (sg_modified sg) true
                                (sg_assoc sg) (sg_dirtydel sg) (sg_seen sg) (sg_seen0 sg) (sg_flags sg)
-                               (sg_blind sg) (sg_switched sg))
+                               (sg_blind sg) (sg_kinds_b sg) (sg_flags_b sg) (sg_switched sg))
                sn evs' snaps'
       end
   | _, _ => false
@@ -211,22 +223,22 @@ Fixpoint coalesce (acc : option Z) (ks : list Z) : option Z :=
       coalesce (Some (if k =? OP_INS then match acc with None => OP_INS | Some _ => OP_UPD end else k)) ks'
   end.
 
-Definition kinds_of (sg : seg) (x : ent) : list Z :=
-  map snd (filter (fun p => ent_eqb (fst p) x) (sg_kinds sg)).
+Definition kinds_of (r_blind : bool) (sg : seg) (x : ent) : list Z :=
+  map snd (filter (fun p => ent_eqb (fst p) x) (if r_blind then sg_kinds_b sg else sg_kinds sg)).
 
 Definition C11_commit (r_blind : bool) (g : cfg) (sg : seg) (sn : snap) : bool :=
+  let allowed := if r_blind then sg_allowed sg ++ sg_blind sg else sg_allowed sg in
   (* exactly one row per entity that had a flushed change, none otherwise *)
   forallb (fun x => (length (filter (fun r => pk_eqb (vkey r) (k_tab (cls_of g (fst x)) :: snd x))
-                                    (new_rows sg sn)) =? 1)%nat) (sg_allowed sg) &&
+                                    (new_rows sg sn)) =? 1)%nat) allowed &&
   forallb (fun r =>
      let x := (tab_cls (vkey r), tl (vkey r)) in
-     (r_blind && mem_ent (sg_blind sg) x && negb (mem_ent (sg_allowed sg) x)) ||
-     mem_ent (sg_allowed sg) x &&
+     mem_ent allowed x &&
      (* operation type = coalesced flushed operations *)
-     oz_eqb (Some (vop r)) (coalesce None (kinds_of sg x)) &&
+     oz_eqb (Some (vop r)) (coalesce None (kinds_of r_blind sg x)) &&
      (* flags accumulate over the flushes *)
      (negb (g_tracker g) ||
-      match find (fun p => ent_eqb (fst p) x) (sg_flags sg) with
+      match find (fun p => ent_eqb (fst p) x) (if r_blind then sg_flags_b sg else sg_flags sg) with
       | Some (_, fl) => list_eqb Bool.eqb (vmod r) fl
       | None => false
       end)) (new_rows sg sn).
